@@ -132,4 +132,151 @@ theorem design_times_h_is_planted (cur : Bool) (n : ℕ) (ev : ℕ → ℤ) (typ
     have : r - (r - j + 0) = j := by omega
     rw [this]
 
+/-! ### FIR: exact recovery, overlaps allowed -/
+
+/-- `v` solves the normal equations `XᵀX v = Xᵀy` -/
+def SolvesNormal (n p : ℕ) (X : ℕ → ℕ → ℤ) (y v : ℕ → ℚ) : Prop :=
+  ∀ a < p, ∑ b ∈ range p, (∑ r ∈ range n, (X r a : ℚ) * (X r b : ℚ)) * v b
+            = ∑ r ∈ range n, (X r a : ℚ) * y r
+
+/-- the first p columns of X are linearly independent over the n rows -/
+def FullColumnRank (n p : ℕ) (X : ℕ → ℕ → ℤ) : Prop :=
+  ∀ v : ℕ → ℚ, (∀ r < n, ∑ c ∈ range p, (X r c : ℚ) * v c = 0) → ∀ c < p, v c = 0
+
+theorem gram_cast (n : ℕ) (X : ℕ → ℕ → ℤ) (a b : ℕ) :
+    ((gram n X a b : ℤ) : ℚ) = ∑ r ∈ range n, (X r a : ℚ) * (X r b : ℚ) := by
+  unfold gram; rw [sumRangeI_eq]; push_cast; rfl
+
+/-- whatever the model's `firSolve` (Gauss–Jordan + exact residual check) returns solves the normal equations -/
+theorem firSolve_solves {n p : ℕ} {X : ℕ → ℕ → ℤ} {y : ℕ → ℚ} {x : List ℚ}
+    (hs : firSolve n p X y = some x) : SolvesNormal n p X y (fun b => x.getD b 0) := by
+  unfold firSolve at hs
+  split at hs
+  · cases hs
+  · split at hs
+    · rename_i hchk
+      injection hs with hx
+      subst hx
+      intro a ha
+      have := (List.all_eq_true.mp hchk) a (List.mem_range.mpr ha)
+      simp only [decide_eq_true_eq] at this
+      unfold xty at this
+      rw [sumRange_eq, sumRange_eq] at this
+      simpa [gram_cast] using this
+    · cases hs
+
+theorem planted_solves {n p : ℕ} {X : ℕ → ℕ → ℤ} {y h : ℕ → ℚ}
+    (hy : ∀ r < n, y r = ∑ c ∈ range p, (X r c : ℚ) * h c) : SolvesNormal n p X y h := by
+  intro a _
+  have e : ∑ r ∈ range n, (X r a : ℚ) * y r
+      = ∑ r ∈ range n, (X r a : ℚ) * ∑ c ∈ range p, (X r c : ℚ) * h c :=
+    Finset.sum_congr rfl (fun r hr => by rw [hy r (Finset.mem_range.mp hr)])
+  rw [e]
+  simp only [Finset.mul_sum, Finset.sum_mul]
+  rw [Finset.sum_comm]
+  apply Finset.sum_congr rfl; intro r _
+  apply Finset.sum_congr rfl; intro c _; ring
+
+theorem solves_unique {n p : ℕ} {X : ℕ → ℕ → ℤ} {y v w : ℕ → ℚ} (hrank : FullColumnRank n p X)
+    (hv : SolvesNormal n p X y v) (hw : SolvesNormal n p X y w) : ∀ c < p, v c = w c := by
+  have key := gram_kernel_trivial n p (fun r c => (X r c : ℚ)) (fun c => v c - w c) ?_ hrank
+  · intro c hc; have := key c hc; linarith
+  · intro a ha
+    have h1 := hv a ha
+    have h2 := hw a ha
+    simp only [mul_sub, Finset.sum_sub_distrib]
+    rw [h1, h2, sub_self]
+
+/-- **fir_exact_recovery**: if the data are exactly `X·h` (responses may overlap arbitrarily) and the
+design has full column rank, the model's FIR estimate IS `h` -/
+theorem fir_exact_recovery {n p : ℕ} {X : ℕ → ℕ → ℤ} {y h : ℕ → ℚ} {x : List ℚ}
+    (hs : firSolve n p X y = some x)
+    (hy : ∀ r < n, y r = ∑ c ∈ range p, (X r c : ℚ) * h c)
+    (hrank : FullColumnRank n p X) : ∀ c < p, x.getD c 0 = h c :=
+  solves_unique hrank (firSolve_solves hs) (planted_solves hy)
+
+/-- FIR on a planted signal, intended design (no sign factor): row b, lag j of the estimate is the
+response of the b-th sorted code at lag j -/
+theorem fir_recovers_planted (cur : Bool) (n : ℕ) (ev : ℕ → ℤ) (types : List ℤ) (L : ℕ)
+    (resp : ℤ → ℕ → ℚ) (y : ℕ → ℚ) (x : List ℚ) (hnd : types.Nodup)
+    (hcov : ∀ k < n, ev k ≠ 0 → ev k ∈ types)
+    (hy : ∀ r < n, y r = planted n ev (signedResp cur resp) 0 L r)
+    (hrank : FullColumnRank n (types.length * L) (designEntry cur ev types L))
+    (hs : firSolve n (types.length * L) (designEntry cur ev types L) y = some x) :
+    ∀ c < types.length * L, x.getD c 0 = resp (types.getD (c / L) 0) (c % L) := by
+  apply fir_exact_recovery hs _ hrank
+  intro r hr
+  rw [hy r hr, ← design_times_h_is_planted cur n ev types L resp hnd hcov r hr]
+
+theorem sgn_mul_self (t : ℤ) (ht : t ≠ 0) : (sgn true t : ℚ) * (sgn true t : ℚ) = 1 := by
+  unfold sgn
+  rcases lt_trichotomy t 0 with h | h | h
+  · have : ¬ t > 0 := by omega
+    simp [this, h]
+  · exact absurd h ht
+  · simp [h]
+
+theorem sgn_neg (t : ℤ) (ht : t < 0) : (sgn true t : ℚ) = -1 := by
+  unfold sgn
+  have : ¬ t > 0 := by omega
+  simp [this, ht]
+
+/-- today's code (`cur = true`) on a signal planted with the plain responses: the estimate of a code's
+response carries the factor `np.sign(code)` -/
+theorem fir_current_sign (n : ℕ) (ev : ℕ → ℤ) (types : List ℤ) (L : ℕ)
+    (resp : ℤ → ℕ → ℚ) (y : ℕ → ℚ) (x : List ℚ) (hnd : types.Nodup)
+    (hcov : ∀ k < n, ev k ≠ 0 → ev k ∈ types)
+    (hy : ∀ r < n, y r = planted n ev resp 0 L r)
+    (hrank : FullColumnRank n (types.length * L) (designEntry true ev types L))
+    (hs : firSolve n (types.length * L) (designEntry true ev types L) y = some x) :
+    ∀ c < types.length * L,
+      x.getD c 0 = (sgn true (types.getD (c / L) 0) : ℚ) * resp (types.getD (c / L) 0) (c % L) := by
+  apply fir_recovers_planted true n ev types L (fun t j => (sgn true t : ℚ) * resp t j) y x hnd hcov _ hrank hs
+  intro r hr
+  rw [hy r hr]
+  unfold planted signedResp
+  rw [sumRange_eq, sumRange_eq]
+  apply Finset.sum_congr rfl
+  intro k _
+  by_cases hc : ev k ≠ 0 ∧ k + 0 ≤ r ∧ r < k + 0 + L
+  · rw [if_pos hc, if_pos hc, ← mul_assoc, sgn_mul_self _ hc.1, one_mul]
+  · rw [if_neg hc, if_neg hc]
+
+/-- **counterexample clause (finding `fir/negative-code/sign-flipped`)**: with today's sign factor a
+negative code's non-zero response sample is NOT returned (it comes back negated) -/
+theorem fir_negative_code_counterexample (n : ℕ) (ev : ℕ → ℤ) (types : List ℤ) (L : ℕ)
+    (resp : ℤ → ℕ → ℚ) (y : ℕ → ℚ) (x : List ℚ) (hnd : types.Nodup)
+    (hcov : ∀ k < n, ev k ≠ 0 → ev k ∈ types)
+    (hy : ∀ r < n, y r = planted n ev resp 0 L r)
+    (hrank : FullColumnRank n (types.length * L) (designEntry true ev types L))
+    (hs : firSolve n (types.length * L) (designEntry true ev types L) y = some x)
+    (c : ℕ) (hc : c < types.length * L) (hneg : types.getD (c / L) 0 < 0)
+    (hnz : resp (types.getD (c / L) 0) (c % L) ≠ 0) :
+    x.getD c 0 = - resp (types.getD (c / L) 0) (c % L) ∧
+    x.getD c 0 ≠ resp (types.getD (c / L) 0) (c % L) := by
+  have h := fir_current_sign n ev types L resp y x hnd hcov hy hrank hs c hc
+  have hs' : (sgn true (types.getD (c / L) 0) : ℚ) = -1 := sgn_neg _ hneg
+  rw [hs'] at h
+  constructor
+  · rw [h]; ring
+  · rw [h]; intro e; apply hnz; linarith
+
+/-- FIR is linear in the data (per channel): the estimate of `a·y₁ + y₂` is `a·ĥ₁ + ĥ₂` -/
+theorem fir_linear {n p : ℕ} {X : ℕ → ℕ → ℤ} {y1 y2 : ℕ → ℚ} {x1 x2 x3 : List ℚ} (a : ℚ)
+    (hrank : FullColumnRank n p X)
+    (h1 : firSolve n p X y1 = some x1) (h2 : firSolve n p X y2 = some x2)
+    (h3 : firSolve n p X (fun r => a * y1 r + y2 r) = some x3) :
+    ∀ c < p, x3.getD c 0 = a * x1.getD c 0 + x2.getD c 0 := by
+  apply solves_unique hrank (firSolve_solves h3)
+  intro b hb
+  have e1 := firSolve_solves h1 b hb
+  have e2 := firSolve_solves h2 b hb
+  simp only [mul_add, Finset.sum_add_distrib] at e1 e2 ⊢
+  have : ∀ (f g : ℕ → ℚ), ∑ i ∈ range p, f i * (a * g i) = a * ∑ i ∈ range p, f i * g i := by
+    intro f g; rw [Finset.mul_sum]; apply Finset.sum_congr rfl; intro i _; ring
+  rw [this, e1, e2]
+  have : ∀ (f g : ℕ → ℚ), ∑ i ∈ range n, f i * (a * g i) = a * ∑ i ∈ range n, f i * g i := by
+    intro f g; rw [Finset.mul_sum]; apply Finset.sum_congr rfl; intro i _; ring
+  rw [this]
+
 end Nitime.C19.Props
